@@ -91,11 +91,11 @@ inductive Resp where
 
 /-- what a reader receives for a record: an empty repeated field is indistinguishable from no
     value; timestamps are only emitted when `> 0` -/
-def wire (r : Rec) : Rec :=
+def wire (ar : Arith) (r : Rec) : Rec :=
   { val := match r.val with | .u32s [] => .none | v => v,
     m := { r.m with ca := if r.m.ca > 0 then r.m.ca else 0,
                     ua := if r.m.ua > 0 then r.m.ua else 0,
-                    exp := if r.m.exp > 0 then r.m.exp else 0 } }
+                    exp := if ar.expNe0 || decide (r.m.exp > 0) then r.m.exp else 0 } }
 
 /-- request value as the handler sees it after protobuf decoding -/
 def normVal : Val → Val
@@ -147,10 +147,16 @@ def numCmp (ar : Arith) : NumTy → RelOp → Int → Int → Bool
   | .flt t, .lt, a, b => ar.flt t a.toNat b.toNat
   | .flt t, .le, a, b => ar.flt t a.toNat b.toNat || ar.feq t a.toNat b.toNat
 
+/-- a number as it reaches the typed API: the wire carries Int8/Int16/Uint8/Uint16 arguments in
+    32-bit fields, the handlers cast them to the width of the request -/
+def numWrap : NumTy → Int → Int
+  | .int t, x => t.wrap x
+  | .flt _, x => x
+
 def condHolds (ar : Arith) (ty : NumTy) (cond : Option (RelOp × Int)) (cur : Int) : Bool :=
   match cond with
   | none => true
-  | some (op, ref) => numCmp ar ty op cur ref
+  | some (op, ref) => numCmp ar ty op cur (numWrap ty ref)
 
 /-- reply of the slice requests: collected per-key errors surface as InvalidArgument -/
 def errOr (e : Bool) : Resp := if e then .err "InvalidArgument" else .ok
@@ -256,14 +262,14 @@ def foldPairs (f : Store → Key × List Nat → Store × Bool) : Store → List
     let (st2, es) := foldPairs f st1 rest
     (st2, e || es)
 
-def shiftAll : Store → List Key → Store × List (Key × Rec)
+def shiftAll (ar : Arith) : Store → List Key → Store × List (Key × Rec)
   | st, [] => (st, [])
   | st, k :: rest =>
     match AL.find k st with
-    | none => shiftAll st rest
+    | none => shiftAll ar st rest
     | some r =>
-      let (st', out) := shiftAll (AL.erase k st) rest
-      (st', (k, wire r) :: out)
+      let (st', out) := shiftAll ar (AL.erase k st) rest
+      (st', (k, wire ar r) :: out)
 
 def delAll : Store → List Key → Store × List St
   | st, [] => (st, [])
@@ -285,16 +291,16 @@ def step (ar : Arith) (now : Int) (st : Store) : Req → Store × Resp
       (st', .sts ss)
   | .get keys =>
     if st.isEmpty then (st, .err "FailedPrecondition")
-    else (st, .recs (keys.map fun k => (AL.find k st).map wire))
+    else (st, .recs (keys.map fun k => (AL.find k st).map (wire ar)))
   | .getAll =>
-    if st.isEmpty then (st, .err "FailedPrecondition") else (st, .kvs (AL.mapV wire st))
+    if st.isEmpty then (st, .err "FailedPrecondition") else (st, .kvs (AL.mapV (wire ar) st))
   | .getByKeys keys =>
     if st.isEmpty then (st, .err "FailedPrecondition")
-    else (st, .kvs (keys.filterMap fun k => (AL.find k st).map fun r => (k, wire r)))
+    else (st, .kvs (keys.filterMap fun k => (AL.find k st).map fun r => (k, wire ar r)))
   | .shift keys =>
     if st.isEmpty then (st, .err "FailedPrecondition")
     else
-      let (st', out) := shiftAll st keys
+      let (st', out) := shiftAll ar st keys
       (st', .kvs out)
   | .del keys =>
     if st.isEmpty then (st, .delErr)
@@ -363,6 +369,9 @@ structure Cfg where
   countMissingOk : Bool
   /-- a failed swamp of a `Set` request gets exactly one response entry -/
   setErrSingle : Bool
+  /-- the float Increment handlers evaluate `cur > ref` (…) as written; false: as "fail when the
+      complement holds" (`if cur <= ref { fail }`), which a NaN operand never fails -/
+  fltCondDirect : Bool
   /-- `SaveFunction` releases the record guard itself when the write interval is 0 -/
   saveReleasesImmediate : Bool
   encoding : Encoding
@@ -388,6 +397,7 @@ inductive Tag where
   | setErrDup          -- a failed swamp of `Set` produced two response entries
   | zeroLikeDropped    -- close/reload changed a zero-like value into void
   | resurrected        -- a key that was deleted comes back from the file at reload
+  | nanCond            -- a float ordering condition was evaluated through its complement
   deriving DecidableEq, Repr, Inhabited
 
 /-- the code's treasure object -/
@@ -572,7 +582,8 @@ def settleAfterDelete (s : State) (i : Inst) : State :=
 def settleAfterTouch (cfg : Cfg) (s : State) (i : Inst) : State × List Tag :=
   if i.recs.isEmpty && s.file.isNone then
     if cfg.noEmptyLive && i.inflight.isEmpty then ({ s with live := none }, [])
-    else (withLive s i, [Tag.emptyLive])
+    -- with the readers repaired, only a parked in-flight treasure keeps an empty swamp alive
+    else (withLive s i, [if cfg.noEmptyLive then Tag.incFailTrace else Tag.emptyLive])
   else (withLive s i, [])
 
 /-- one key of `Set` (gateway.go) -/
@@ -592,15 +603,15 @@ def setLoop (cfg : Cfg) (create over : Bool) : Inst → List Item → Inst × Li
     let (i', ss, tgs) := setLoop cfg create over i1 rest
     (i', st :: ss, tg ++ tgs)
 
-def shiftLoop : Inst → List Key → Inst × List (Key × Rec)
+def shiftLoop (ar : Arith) : Inst → List Key → Inst × List (Key × Rec)
   | i, [] => (i, [])
   | i, k :: rest =>
     match AL.find k i.recs with
-    | none => shiftLoop i rest
+    | none => shiftLoop ar i rest
     | some t =>
-      let (i', out) := shiftLoop (deleteRec i k) rest
+      let (i', out) := shiftLoop ar (deleteRec i k) rest
       -- the reply carries `treasureObj.Clone(...)`
-      (i', (k, wire { t with c := t.c.clone }.abs) :: out)
+      (i', (k, wire ar { t with c := t.c.clone }.abs) :: out)
 
 def delLoop : Inst → List Key → Inst × List St
   | i, [] => (i, [])
@@ -679,6 +690,19 @@ def incStep (cfg : Cfg) (ar : Arith) (now : Int) (s : State) (ty : NumTy) (k : K
     let o := incCore cfg ar now (summon s) ty k by_ cond ine ie
     let st := settleAfterTouch cfg s o.i
     ⟨st.1, o.r, o.tags ++ st.2⟩
+
+/-- the comparison the float Increment handlers really make when they are written as
+    `if cur <= ref { fail }`: "greater" is "not (less or equal)".  Equal to `ar` on ordered
+    operands; with a NaN operand every ordering condition passes. -/
+def negCmp (ar : Arith) : Arith :=
+  { ar with flt := fun t x y => !(ar.flt t y x || ar.feq t x y) }
+
+def cmpArith (cfg : Cfg) (ar : Arith) : Arith := if cfg.fltCondDirect then ar else negCmp ar
+
+/-- a float condition with an ordering operator (the only place `Arith.flt` is consulted) -/
+def isFltOrd : NumTy → Option (RelOp × Int) → Bool
+  | .flt _, some (.gt, _) | .flt _, some (.ge, _) | .flt _, some (.lt, _) | .flt _, some (.le, _) => true
+  | _, _ => false
 
 /-- content after `Uint32SlicePush` (with the type check: a canonical slice) -/
 def pushSet (cfg : Cfg) (c : Content) (vs : List Nat) : SetRes :=
@@ -776,18 +800,18 @@ def stepCore (cfg : Cfg) (ar : Arith) (now : Int) (s : State) (req : Req) : Out 
       ⟨st.1, .sts r.2.1, r.2.2 ++ st.2⟩
   | .get keys =>
     if !exists_ s then ⟨s, .err "FailedPrecondition", []⟩
-    else ⟨withLive s (summon s), .recs (keys.map fun k => (AL.find k (summon s).recs).map fun t => wire t.abs), []⟩
+    else ⟨withLive s (summon s), .recs (keys.map fun k => (AL.find k (summon s).recs).map fun t => wire ar t.abs), []⟩
   | .getAll =>
     if !exists_ s then ⟨s, .err "FailedPrecondition", []⟩
-    else ⟨withLive s (summon s), .kvs (AL.mapV (fun t => wire t.abs) (summon s).recs), []⟩
+    else ⟨withLive s (summon s), .kvs (AL.mapV (fun t => wire ar t.abs) (summon s).recs), []⟩
   | .getByKeys keys =>
     if !exists_ s then ⟨s, .err "FailedPrecondition", []⟩
     else ⟨withLive s (summon s),
-          .kvs (keys.filterMap fun k => (AL.find k (summon s).recs).map fun t => (k, wire t.abs)), []⟩
+          .kvs (keys.filterMap fun k => (AL.find k (summon s).recs).map fun t => (k, wire ar t.abs)), []⟩
   | .shift keys =>
     if !exists_ s then ⟨s, .err "FailedPrecondition", []⟩
     else
-      let r := shiftLoop (summon s) keys
+      let r := shiftLoop ar (summon s) keys
       ⟨settleAfterDelete s r.1, .kvs r.2, []⟩
   | .del keys =>
     if !exists_ s then ⟨s, .delErr, []⟩
@@ -808,7 +832,9 @@ def stepCore (cfg : Cfg) (ar : Arith) (now : Int) (s : State) (req : Req) : Out 
       else ⟨s, .err "FailedPrecondition", [Tag.arekPrecondition]⟩
     else ⟨withLive s (summon s), .flags (flagMap (fun k => AL.has k (summon s).recs) keys), []⟩
   | .isSwamp => ⟨s, .flag (exists_ s), []⟩
-  | .inc ty k by_ cond ine ie => incStep cfg ar now s ty k by_ cond ine ie
+  | .inc ty k by_ cond ine ie =>
+    let o := incStep cfg (cmpArith cfg ar) now s ty k by_ cond ine ie
+    ⟨o.s, o.r, o.tags ++ (if !cfg.fltCondDirect && isFltOrd ty cond then [Tag.nanCond] else [])⟩
   | .push pairs =>
     let r := pushLoop cfg (summon s) pairs
     let st := settleAfterTouch cfg s r.1
@@ -862,7 +888,7 @@ def step (cfg : Cfg) (ar : Arith) (now : Int) (s : State) (req : Req) : Out :=
   if s.dead then ⟨s, .skip, []⟩
   else
     let o := stepCore cfg ar now s req
-    { o with tags := o.tags ++ (if ghost s then [Tag.emptyLive] else []) }
+    { o with tags := o.tags ++ (if ghost s then [if cfg.noEmptyLive then Tag.incFailTrace else Tag.emptyLive] else []) }
 
 end Model
 
